@@ -84,12 +84,33 @@ func (p *c03) Cases(tier string, emit func(interface{})) {
 				}
 			}
 			emit(c03Case{Part: "bfs", Schema: schema, Store: st, Source: "ref", Depth: depth})
-			if schema == "base" {
-				for _, strat := range []string{"upsert", "insert", "update"} {
-					for _, entry := range []string{"", "l"} {
-						for _, src := range []string{"ref", "json"} {
-							emit(c03Case{Part: "lists", Schema: schema, Store: st, Source: src, Strat: strat, Dir: "from", Entry: entry})
+			if st == "ref" {
+				// the library's nodes over Go data as the SOURCE of the edit (target: reference store)
+				for _, src := range c03Stores()[1:] {
+					if strings.HasPrefix(src, "reflect-struct") {
+						// nodeutil.Reflect reads the zero value of a Go int or bool field as a set leaf: a
+						// struct cannot say "unset", so what such a source mentions is not S
+						continue
+					}
+					for _, strat := range []string{"upsert", "insert", "update"} {
+						for _, entry := range c03Entries[schema] {
+							emit(c03Case{Part: "pairs", Schema: schema, Store: st, Source: "lib:" + src, Strat: strat, Dir: "from", Entry: entry, B: B})
 						}
+					}
+				}
+			}
+			for _, strat := range []string{"upsert", "insert", "update"} {
+				for _, entry := range []string{"", map[string]string{"base": "l", "keys": "p"}[schema]} {
+					srcs := []string{"ref", "json"}
+					if st == "ref" {
+						for _, src := range c03Stores()[1:] {
+							if !strings.HasPrefix(src, "reflect-struct") {
+								srcs = append(srcs, "lib:"+src)
+							}
+						}
+					}
+					for _, src := range srcs {
+						emit(c03Case{Part: "lists", Schema: schema, Store: st, Source: src, Strat: strat, Dir: "from", Entry: entry})
 					}
 				}
 			}
@@ -328,7 +349,11 @@ func c03CheckPair(c c03Case, s, t *model.Tree) (sig, what, outcome string, ran b
 	if _, ok := modelEdit(env.m, ep, strat, s, t.Clone(), false); !ok {
 		return "", "", "", false
 	}
+	env.srcUnordered = strings.HasPrefix(c.Source, "lib:") && strings.HasSuffix(c.Source, "map")
 	out, applicable := applyEdit(env, ep, c.Source, strat, c.Dir, s)
+	if out.err == errUnrepresentable {
+		return "", "", "", false
+	}
 	desc := fmt.Sprintf("%s %s %s at %q: S=%s T=%s", c.Strat, c.Dir, c.Source, c.Entry, s, t)
 	sig, what, oc := c03Judge(env, site, ep, strat, s, before, out, applicable, desc)
 	return sig, what, oc, true
@@ -346,6 +371,10 @@ func c03Judge(env *dataEnv, site string, ep entryPoint, strat model.Strategy, s,
 	got := env.snap()
 	class := errClass(out.err)
 	o := env.canonOpts()
+	if env.srcUnordered {
+		// a Go map as the source has no entry order to hand over
+		o.IgnoreEntryOrder = true
+	}
 	judge := func(alt bool) (string, string) {
 		want := before.Clone()
 		wantClass, _ := modelEdit(env.m, ep, strat, s, want, env.st.MapLists(), alt)
@@ -437,13 +466,12 @@ func c03RunPairs(c c03Case) eng.Result {
 
 // c03ListDocs: documents holding list l with the given numbers of entries; keys are distinct members of
 // {a,b,c} in every order, each entry takes every combination of the per-entry variants.
-func c03ListDocs(counts []int, variants []string) []string {
-	keys := []string{"a", "b", "c"}
+func c03ListDocs(list string, keys []string, counts []int, variants []string) []string {
 	var out []string
 	var rec func(n int, used []string, acc []string)
 	rec = func(n int, used []string, acc []string) {
 		if n == 0 {
-			out = append(out, `{"l":[`+strings.Join(acc, ",")+`]}`)
+			out = append(out, `{"`+list+`":[`+strings.Join(acc, ",")+`]}`)
 			return
 		}
 		for _, k := range keys {
@@ -455,7 +483,7 @@ func c03ListDocs(counts []int, variants []string) []string {
 				continue
 			}
 			for _, v := range variants {
-				rec(n-1, append(append([]string{}, used...), k), append(append([]string{}, acc...), `{"k":"`+k+`"`+v+`}`))
+				rec(n-1, append(append([]string{}, used...), k), append(append([]string{}, acc...), `{`+k+v+`}`))
 			}
 		}
 	}
@@ -485,10 +513,27 @@ func c03RunLists(c c03Case) eng.Result {
 		return t
 	}
 	var srcs, ts []*model.Tree
-	for _, d := range c03ListDocs([]int{1, 2}, []string{``, `,"v":2`}) {
+	list, keys := "l", []string{`"k":"a"`, `"k":"b"`, `"k":"c"`}
+	sv, tv := []string{``, `,"v":2`}, []string{`,"v":1`, `,"v":1,"w":"x"`}
+	if c.Schema == "keys" {
+		// compound key of two types; two tuples share their first component
+		list, keys = "p", []string{`"a":"a","b":1`, `"a":"a","b":2`, `"a":"b","b":1`}
+		if c03Alpha(c.Store).Keys != nil || c03Alpha(strings.TrimPrefix(c.Source, "lib:")).Keys != nil {
+			// map-backed lists are Go maps keyed by the first key leaf and report only that one as
+			// the key of a row: the single-key list q (an int32 key) is used for them
+			list, keys = "q", []string{`"i":1`, `"i":2`, `"i":3`}
+			sv, tv = []string{``, `,"t":["b"]`}, []string{``, `,"t":["a"]`}
+			if c.Entry == "p" {
+				c.Entry = "q"
+				ep = entryPoint{c.Entry}
+			}
+		}
+		sv, tv = []string{``, `,"v":"b"`}, []string{``, `,"v":"a"`}
+	}
+	for _, d := range c03ListDocs(list, keys, []int{1, 2}, sv) {
 		srcs = append(srcs, parse(d))
 	}
-	for _, d := range c03ListDocs([]int{0, 1, 2}, []string{`,"v":1`, `,"v":1,"w":"x"`}) {
+	for _, d := range c03ListDocs(list, keys, []int{0, 1, 2}, tv) {
 		ts = append(ts, parse(d))
 	}
 	for _, t := range ts {
